@@ -1,6 +1,7 @@
 package main
 
 import (
+	"os/exec"
 	"crypto/sha256"
 	"runtime/debug"
 	"encoding/json"
@@ -398,6 +399,28 @@ func runCheck(o CheckOpts) (code int) {
 	// wrong expectation would agree with wrong code); it is labelled bounded in
 	// the evidence and never counted as proved.
 	if o.Tier == "thorough" {
+		// the axioms the proofs lean on: inductive lemma files (deductive) and
+		// sampling of the assumed netip/duration/library facts against the real
+		// library (bounded)
+		if out, err := exec.Command("sh", filepath.Join(o.Verif, "tools", "lemmas.sh")).CombinedOutput(); err != nil {
+			violations++
+			rp := writeReplay(o, "prelude/lemmas", "a lemma that justifies a prelude axiom is not discharged\n"+string(out), nil)
+			lines = append(lines, fmt.Sprintf("VIOLATION property=%s replay=%s obligation=prelude/lemmas reason=%q no-failing-input-found", o.Prop, rp, "lemma file not discharged"))
+		} else {
+			for _, l := range strings.Split(strings.TrimSpace(string(out)), "\n") {
+				ev.addNote("prelude lemma: " + l)
+			}
+		}
+		cmd := exec.Command("go", "test", "-count=1", "./conformance")
+		cmd.Dir = o.Verif
+		cmd.Env = append(os.Environ(), "GOFLAGS=-mod=vendor", "GOPROXY=off", "GOSUMDB=off", "GOTOOLCHAIN=local")
+		if out, err := cmd.CombinedOutput(); err != nil {
+			violations++
+			rp := writeReplay(o, "prelude/conformance", "an assumed axiom or library contract disagrees with the real library on a sampled input\n"+string(out), nil)
+			lines = append(lines, fmt.Sprintf("VIOLATION property=%s replay=%s obligation=prelude/conformance reason=%q", o.Prop, rp, "assumed axiom fails on a sampled input"))
+		} else {
+			ev.BoundedRuns = append(ev.BoundedRuns, "bounded: /verif/conformance samples every netip/duration axiom of the prelude and the arithmetic library contracts against the real library (20000 pseudo-random samples per group plus boundary values): no disagreement")
+		}
 		seenAd := map[string]bool{}
 		for _, r := range reports {
 			ad := adapterFor(o.Verif, r.Name)
